@@ -10,7 +10,7 @@ import (
 // connection; nothing crashes or panics.
 
 type c19X struct {
-	Kind       int // 0 boundary line, 1 endless line, 2 short strings, 3 seeded binary, 4 error threshold
+	Kind       int // 0 boundary line, 1 endless line, 2 short strings, 3 seeded binary, 4 error threshold, 5 argument fragments, 6 refused greeting
 	Limit      int
 	Len        int // probe line length, CRLF included
 	Form       int // 0 NOOP padded, 1 MAIL padded with spaces
@@ -27,7 +27,7 @@ type c19X struct {
 }
 
 var c19Pos = []string{"before-helo", "greeted", "after-mail", "after-bdat-chunk", "after-transaction", "inside-auth-exchange", "after-chunk-refused-by-backend"}
-var c19Kinds = []string{"boundary-line", "endless-line", "short-strings", "binary", "error-threshold", "argument-fragments"}
+var c19Kinds = []string{"boundary-line", "endless-line", "short-strings", "binary", "error-threshold", "argument-fragments", "refused-greeting"}
 
 // Fragments of MAIL/RCPT arguments: well-formed, cut short, empty, with escapes that
 // end early or name nothing - every extension the server can be configured with.
@@ -107,7 +107,7 @@ func genC19(t *Tape, tier string) *Scenario {
 	sc.Srv.LMTP = false
 	x := &c19X{ErrAt: -1, TLSAt: -1}
 	sc.X = x
-	x.Kind = t.Named("c19kind", 6)
+	x.Kind = t.Named("c19kind", 7)
 	var cp ConnBackendPlan
 	steps := []Step{{Kind: kGreetWait, Wait: 1}}
 	lock := t.Bool()
@@ -272,6 +272,35 @@ func genC19(t *Tape, tier string) *Scenario {
 			Step{Kind: kGarbage, Data: []byte(rcptLine + "\r\n"), Wait: w()},
 			Step{Kind: kMarker, Data: []byte("NOOP\r\n"), Wait: w()}, Step{Kind: kQuit, Data: []byte("QUIT\r\n"), Wait: w()})
 		x.Judged = true
+	case 6:
+		// the backend refuses the session (an error, an SMTP error, a panic) for the first one
+		// or two greetings, and the client goes on regardless: commands of every kind against a
+		// connection that has a greeting name on the wire but no session
+		nfail := 1 + t.Intn(2)
+		for i := 0; i < nfail; i++ {
+			v := Verdict{Kind: vSMTP, Code: 451, Enh: [3]int{4, 7, 1}, Msg: "try again later"}
+			switch t.Intn(4) {
+			case 0:
+				v = Verdict{Kind: vPlain, Msg: "no session for you"}
+			case 1:
+				if i == nfail-1 {
+					v = Verdict{Kind: vPanic, Msg: "in NewSession"} // ends the connection
+				}
+			}
+			cp.NewSession = append(cp.NewSession, v)
+		}
+		sc.Srv.InsecureAuth = true
+		cmds := []string{"MAIL FROM:<ok-s@a.example>", "RCPT TO:<ok-r@b.example>", "DATA", "BDAT 5\r\nhello", "BDAT 0 LAST", "RSET", "NOOP", "VRFY someone", "AUTH PLAIN AHVzZXIAcGFzcw==", "AUTH PLAIN", "STARTTLS", "EHLO again.example", "HELO again.example", "MAIL FROM:<ok-s2@a.example> SIZE=10"}
+		steps = append(steps, Step{Kind: kHelo, Data: heloLine(sc.Srv), Wait: w()})
+		n := 1 + t.Intn(6)
+		for i := 0; i < n; i++ {
+			l := cmds[t.Intn(len(cmds))]
+			x.Lines = append(x.Lines, l)
+			steps = append(steps, Step{Kind: kGarbage, Data: []byte(l + "\r\n"), Wait: w(), Glue: !lock && t.Bool()})
+		}
+		steps = append(steps, Step{Kind: kQuit, Data: []byte("QUIT\r\n"), Wait: w()})
+		cp.Data = append(cp.Data, DataPlan{}, DataPlan{})
+		x.Judged = true
 	case 4:
 		x.Pos = 1 + t.Intn(2)
 		x.Pre = c19Prefix(t, sc, x.Pos, &steps, &cp)
@@ -340,7 +369,7 @@ func checkC19(sc *Scenario, h *History) []Violation {
 	x := sc.X.(*c19X)
 	ch := h.Conns[0]
 	wit := fmt.Sprintf("kind=%s limit=%d len=%d form=%d pos=%s", c19Kinds[x.Kind], x.Limit, x.Len, x.Form, c19Pos[x.Pos])
-	if x.Kind == 2 || x.Kind == 4 || x.Kind == 5 {
+	if x.Kind == 2 || x.Kind == 4 || x.Kind == 5 || x.Kind == 6 {
 		wit += fmt.Sprintf(" lines=%q", x.Lines)
 		if x.TLSAt >= 0 {
 			wit += fmt.Sprintf(" starttls-before-line=%d", x.TLSAt)
@@ -348,7 +377,7 @@ func checkC19(sc *Scenario, h *History) []Violation {
 	}
 	// no recovered panic, no deadlock, nobody left behind
 	for _, l := range h.Logs {
-		if strings.HasPrefix(l, "panic serving") {
+		if strings.HasPrefix(l, "panic serving") && !strings.Contains(l, "simulated backend panic") {
 			first := l
 			if i := strings.Index(l, "\n"); i > 0 {
 				first = l[:i]
@@ -509,6 +538,13 @@ func classifyC19(sc *Scenario, h *History, st *Stats) string {
 		if x.Pos == 3 || x.Pos == 6 {
 			st.Probes["endless_line_after_bdat_chunk"]++
 		}
+	case 6:
+		for _, e := range h.Events {
+			if e.Kind == "NewSession" && (e.Res != "" || e.Panicked) {
+				st.Faults["backend_refuses_the_session_and_the_client_goes_on"]++
+				break
+			}
+		}
 	case 5:
 		st.Probes["mail_rcpt_arguments_from_fragments"]++
 		for _, e := range h.Events {
@@ -546,7 +582,7 @@ func segKey(sc *Scenario) string {
 func init() {
 	register(&Property{
 		ID: "C19", Level: "exploration",
-		Rule:     "raw driver sends (0) a probe line of length limit-2..limit+3, limit+50, 2*limit (CRLF included; NOOP padded or MAIL padded with spaces) for limits 64/200/2000 at seven conversation positions (after a BDAT chunk - lock-step or in the chunk's own segment -, after a chunk the backend refused, inside an AUTH exchange where the line is the base64 response to a 334, ...), whole or cut so that the limit is crossed inside one segment or across segments; (1) an endless LF-free stream of 70000 octets (letters, or letters with CR, NUL, SP or HT at intervals shorter than the limit) at four positions including after a BDAT chunk; (2) every string of length <= 4 over {NUL,CR,LF,SP,A,:,<} as a command line, repeated 1-4 times; (3) seeded binary; (4) mixes of valid and malformed commands around the fourth error, checked against a reference error counter - in a quarter of them with a STARTTLS and its handshake somewhere between the lines, which does not restart the count; (5) MAIL and RCPT arguments built from fragments - paths (quoted, source-routed, literal, unterminated, doubled brackets, 8-bit) and parameters of every extension (SIZE, BODY, SMTPUTF8, REQUIRETLS, RET, ENVID, AUTH, NOTIFY, ORCPT rfc822/utf-8 with escapes cut short, RRVS), each alone (systematic) and in drawn combinations, with all extensions enabled: no panic, five replies, the connection stays usable. Every case is non-trivial by construction; distinct by (kind, limit, length, form, position, lines, segmentation). Length limit+1 is generated but not judged. The error flood also comes from a peer that does not take the replies (reply writes fail, or block until WriteTimeout), with a sentinel command behind it.",
+		Rule:     "raw driver sends (0) a probe line of length limit-2..limit+3, limit+50, 2*limit (CRLF included; NOOP padded or MAIL padded with spaces) for limits 64/200/2000 at seven conversation positions (after a BDAT chunk - lock-step or in the chunk's own segment -, after a chunk the backend refused, inside an AUTH exchange where the line is the base64 response to a 334, ...), whole or cut so that the limit is crossed inside one segment or across segments; (1) an endless LF-free stream of 70000 octets (letters, or letters with CR, NUL, SP or HT at intervals shorter than the limit) at four positions including after a BDAT chunk; (2) every string of length <= 4 over {NUL,CR,LF,SP,A,:,<} as a command line, repeated 1-4 times; (3) seeded binary; (4) mixes of valid and malformed commands around the fourth error, checked against a reference error counter - in a quarter of them with a STARTTLS and its handshake somewhere between the lines, which does not restart the count; (5) MAIL and RCPT arguments built from fragments - paths (quoted, source-routed, literal, unterminated, doubled brackets, 8-bit) and parameters of every extension (SIZE, BODY, SMTPUTF8, REQUIRETLS, RET, ENVID, AUTH, NOTIFY, ORCPT rfc822/utf-8 with escapes cut short, RRVS), each alone (systematic) and in drawn combinations, with all extensions enabled: no panic, five replies, the connection stays usable; (6) a backend that refuses the session (error, SMTP error, panic) at the first one or two greetings and a client that goes on regardless with 1-6 commands of every kind (MAIL, RCPT, DATA, BDAT, AUTH, STARTTLS, RSET, VRFY, another greeting): no recovered panic other than the backend's own, no hang. Every case is non-trivial by construction; distinct by (kind, limit, length, form, position, lines, segmentation). Length limit+1 is generated but not judged. The error flood also comes from a peer that does not take the replies (reply writes fail, or block until WriteTimeout), with a sentinel command behind it.",
 		Gen:      genC19,
 		Check:    checkC19,
 		Classify: classifyC19,
@@ -587,7 +623,7 @@ func init() {
 		Real:        []string{"smtp.Server.Serve/handleConn", "smtp.Conn command loop, protocolError, panic recovery", "lineLimitReader", "parseCmd and argument parsers", "net/textproto", "bufio"},
 		Stub:        []string{"net.Listener (SimListener)", "net.Conn (SimConn; counts the octets the server pulls)", "Backend/Session (SimBackend)", "clock (synctest)", "SMTP client (raw driver)", "Server.ErrorLog (recording logger)"},
 		Assumptions: []string{"only unknown verbs and lines not of the shape VERB [SP args] are used as 'unrecognised or malformed'; argument-level syntax errors are counted neither way", "an unrecovered panic kills the worker process and is reported by verifctl as a process-crash violation"},
-		Required:    []string{"endless_line_after_bdat_chunk", "probe_after_chunk_refused_by_backend", "probe_line_in_the_same_segment_as_a_chunk", "limit_crossed_across_segments", "limit_crossed_inside_one_segment", "error_threshold_reached", "line_len_limit+2", "line_len_limit+0", "error_flood_while_reply_writes_fail", "endless_line_with_CR_at_intervals", "mail_rcpt_arguments_from_fragments", "fragment_arguments_accepted_by_parser", "errors_on_both_sides_of_STARTTLS"},
+		Required:    []string{"endless_line_after_bdat_chunk", "probe_after_chunk_refused_by_backend", "probe_line_in_the_same_segment_as_a_chunk", "limit_crossed_across_segments", "limit_crossed_inside_one_segment", "error_threshold_reached", "line_len_limit+2", "line_len_limit+0", "error_flood_while_reply_writes_fail", "endless_line_with_CR_at_intervals", "mail_rcpt_arguments_from_fragments", "fragment_arguments_accepted_by_parser", "errors_on_both_sides_of_STARTTLS", "backend_refuses_the_session_and_the_client_goes_on"},
 		QuickRuns:   120000, ThoroughRuns: 3000000,
 	})
 }
